@@ -347,6 +347,26 @@ def normalize_tree(tree: ast.AST) -> ast.AST:
             return node
     if os.environ.get("SA_NO_MERGEIF") != "1":
         tree = MergeIf().visit(tree)
+
+    # `x[:1] == "c"` is `x.startswith("c")`, `x[-1:] == "c"` is `x.endswith("c")` (one-character constant; both are total on str)
+    class PrefixTest(ast.NodeTransformer):
+        def visit_Compare(self, node):
+            self.generic_visit(node)
+            if len(node.ops) == 1 and isinstance(node.ops[0], (ast.Eq, ast.NotEq)) and isinstance(node.left, ast.Subscript) and isinstance(node.left.slice, ast.Slice) \
+                    and isinstance(node.comparators[0], ast.Constant) and isinstance(node.comparators[0].value, str) and len(node.comparators[0].value) == 1 and node.left.slice.step is None:
+                sl = node.left.slice
+                lo, hi = sl.lower, sl.upper
+                meth = None
+                if (lo is None or (isinstance(lo, ast.Constant) and lo.value == 0)) and isinstance(hi, ast.Constant) and hi.value == 1:
+                    meth = "startswith"
+                elif hi is None and isinstance(lo, ast.UnaryOp) and isinstance(lo.op, ast.USub) and isinstance(lo.operand, ast.Constant) and lo.operand.value == 1:
+                    meth = "endswith"
+                if meth is not None:
+                    call = ast.Call(func=ast.Attribute(value=node.left.value, attr=meth, ctx=ast.Load()), args=[node.comparators[0]], keywords=[])
+                    new = call if isinstance(node.ops[0], ast.Eq) else ast.UnaryOp(op=ast.Not(), operand=call)
+                    return ast.copy_location(new, node)
+            return node
+    tree = PrefixTest().visit(tree)
     if os.environ.get("SA_COPYPROP") == "1":  # experimental, off: too many rules are written against the temporaries of the pinned source
         _copy_propagate(tree)
     ast.fix_missing_locations(tree)
